@@ -9,6 +9,7 @@ import SieveModel.Spec.Rfc5804
 import SieveModel.Model.Safety
 import SieveModel.Model.ToList
 import SieveModel.Model.Factory
+import SieveModel.Model.Readback
 /-! Line-protocol driver: one request per line on stdin, one answer per line on stdout. -/
 
 structure DState where
@@ -121,8 +122,52 @@ def factoryOp (st : DState) (fs : List String) : String :=
   let cfg : Factory.Cfg := { T := st.table, matchExt := st.matchExt, argExt := st.argExt, gl := hexList (kv fs "gl") }
   let (reqs, r) := Factory.createFilter cfg (hexList (kv fs "reqs")) (tuplesOf (kv fs "conds")) (tuplesOf (kv fs "acts")) (hexB (kv fs "mt"))
   "reqs=" ++ ",".intercalate (reqs.map hexOr) ++ " res=" ++ (match r with
-    | .ok n => "ok " ++ Show.node n
+    | .ok n => "ok " ++ Show.node n ++ " ser=" ++ (match Ser.node st.table 0 n with | some b => hexOr b | none => "crash")
     | .error e => "err " ++ showFErr e)
+
+/-! build, read back, render, parse, load, read back again: `fbr <fields of fb> name=… desc=… npre=… dpre=…` -/
+def showRVal : Readback.RVal → String
+  | .s b => "s" ++ hexOr b
+  | .l items => "l" ++ "+".intercalate (items.map hexOr)
+def showTuples (r : Readback.R (List (List Readback.RVal))) : String :=
+  match r with
+  | .ok ts => if ts.isEmpty then "-" else "|".intercalate (ts.map fun t => if t.isEmpty then "_" else ";".intercalate (t.map showRVal))
+  | .error _ => "crash"
+def showReadback (T : Table) (n : Node) : String :=
+  "conds=" ++ showTuples (Readback.conditions T n) ++ " acts=" ++ showTuples (Readback.actions T n) ++
+    " mt=" ++ (match Readback.matchtype T n with | some b => hexOr b | none => "none")
+def factoryRoundTrip (st : DState) (fs : List String) : String :=
+  let cfg : Factory.Cfg := { T := st.table, matchExt := st.matchExt, argExt := st.argExt, gl := hexList (kv fs "gl") }
+  let (reqs, r) := Factory.createFilter cfg (hexList (kv fs "reqs")) (tuplesOf (kv fs "conds")) (tuplesOf (kv fs "acts")) (hexB (kv fs "mt"))
+  match r with
+  | .error e => "err " ++ showFErr e
+  | .ok n =>
+    let direct := showReadback st.table n
+    let name := hexB (kv fs "name")
+    let desc := hexB (kv fs "desc")
+    let npre := hexB (kv fs "npre")
+    let dpre := hexB (kv fs "dpre")
+    -- `FiltersSet.tosieve`: the require command, then marker comments and the filter
+    let reqText : Option Bytes :=
+      if reqs.isEmpty then some []
+      else (Ser.node st.table 0 (.mk (sb "require") [.strs "capabilities" reqs] [] [] [])).map (· ++ [10])
+    let text : Option Bytes := match reqText, Ser.node st.table 0 n with
+      | some rq, some body => some (rq ++ npre ++ name ++ [10] ++ (if desc.isEmpty then [] else dpre ++ desc ++ [10]) ++ body)
+      | _, _ => none
+    match text with
+    | none => "direct " ++ direct ++ " text=crash"
+    | some t =>
+      let reloaded := match Machine.parse st.table t with
+        | .accept res =>
+          let (rq, loaded) := Readback.load npre dpre res 1 [] []
+          (match loaded with
+           | [l] => (match Readback.filterBody l with
+              | some b => "name=" ++ hexOr l.name ++ " desc=" ++ hexOr l.description ++ " enabled=" ++ showBool l.enabled ++
+                  " reqs=" ++ ",".intercalate (rq.map hexOr) ++ " " ++ showReadback st.table b
+              | none => "nobody")
+           | _ => s!"filters={loaded.length}")
+        | _ => "rejected"
+      "direct " ++ direct ++ " text=" ++ hexOr t ++ " reloaded " ++ reloaded
 
 def clientOp (st : DState) (fs : List String) : DState × String :=
   let c0 := st.client
@@ -201,6 +246,7 @@ def answer (st : DState) (line : String) : DState × String :=
     | none => (st, "bad-def")
   | "fcfg" :: fs => ({ st with matchExt := pairList (kv fs "match"), argExt := pairList (kv fs "arg") }, "ok")
   | "fb" :: fs => (st, factoryOp st fs)
+  | "fbr" :: fs => (st, factoryRoundTrip st fs)
   | "c" :: fs => clientOp st fs
   | "fs" :: args => fsOp st args
   | _ => (st, "bad-request")
